@@ -332,6 +332,9 @@ macro_rules! angle_systems {
                     xs.push(3.0 * 10f64.powi(-k) / to_rad);
                     xs.push(-(10f64.powi(-k)) / to_rad);
                 }
+                for k in (2..=40).step_by(2) {
+                    xs.push(if k % 4 == 0 { 1.25 } else { -1.25 } * 2f64.powi(-k) / to_rad);
+                }
                 for c in [PI / 2.0, PI, 2.0 * PI] {
                     for d in [1e-4, -1e-4, 1e-2] {
                         xs.push((c + d) / to_rad);
@@ -391,6 +394,9 @@ macro_rules! angle_systems {
                 for k in 1..=7 {
                     ratios.push(num_traits::cast::<f64, T>(3.0 * 10f64.powi(-k)).unwrap());
                     ratios.push(num_traits::cast::<f64, T>(-(10f64.powi(-k))).unwrap());
+                }
+                for k in (2..=40).step_by(2) {
+                    ratios.push(num_traits::cast::<f64, T>(if k % 4 == 0 { 1.25 } else { -1.25 } * 2f64.powi(-k)).unwrap());
                 }
                 for d in [1e-3, 1e-6] {
                     ratios.push(num_traits::cast::<f64, T>(1.0 - d).unwrap());
